@@ -244,7 +244,15 @@ func c16multi(c *h.Ctx, r *h.Rand) {
 					raw["recipients"] = savedR
 					cl := decrypt(string(mut), rpool[i].dec)
 					in := fmt.Sprintf("%s flip recipients[%d].encrypted_key bit %d, decrypt with %s", id, si, bit, rpool[i].name)
-					c.Hold(cl == "err", "C16_tamper.multi.encrypted_key", in, cl, "err")
+					// the changed entry no longer serves its recipient; the object still decrypts under that key only if
+					// ANOTHER entry was made for the very same key (then that one is genuine and untouched)
+					want := "err"
+					for sj, j := range combo {
+						if sj != si && keyID[j] == keyID[i] {
+							want = "ok"
+						}
+					}
+					c.Hold(cl == want, "C16_tamper.multi.encrypted_key", in, cl, want)
 				}
 			}
 			c.Case(fmt.Sprintf("jwe-multi/n=%d,%s", len(combo), encAlg), id, true)
